@@ -59,6 +59,7 @@ type RunConfig struct {
 	Straggler        int     `json:"straggler"`
 	Synthetic        bool    `json:"synthetic"`
 	PJoinerBadger    float64 `json:"p_joiner_badger,omitempty"`
+	Prepared         bool    `json:"prepared,omitempty"`    // the nodes bootstrap from a database holding a synthetic (deep-election) history, then the fair suffix runs
 	LeaveFirst       bool    `json:"leave_first,omitempty"` // a validator leaves early; joins and re-fast-forwards come after its removal
 	PAppError        float64 `json:"p_app_error,omitempty"`
 	StragglerP       float64 `json:"straggler_p"`
